@@ -646,6 +646,7 @@ func main() {
 		{"bsdiff/psa.go", "NewPSA"}, {"bsdiff/psa.go", "PSA.search"}, {"bsdiff/adder_reader.go", "AdderReader.Read"},
 		{"bsdiff/lrufile/lrufile.go", "lruFile.Read"}, {"bsdiff/lrufile/lrufile.go", "lruFile.getChunk"}, {"bsdiff/lrufile/lrufile.go", "lruFile.Seek"}, {"bsdiff/lrufile/lrufile.go", "lruFile.Reset"},
 		{"wire/read_context.go", "ReadContext.ReadMessage"}, {"wire/read_context.go", "ReadContext.Resume"}, {"wire/read_context.go", "ReadContext.WantSave"}, {"wire/read_context.go", "ReadContext.PopCheckpoint"},
+		{"wire/read_context.go", "countingReader.ReadByte"}, {"wire/read_context.go", "countingReader.Read"}, {"wire/read_context.go", "discardByRead"}, {"wire/read_context.go", "ReadContext.ExpectMagic"},
 		{"wire/write_context.go", "WriteContext.WriteMessage"}, {"pwr/compression.go", "DecompressWire"}, {"pwr/compression.go", "CompressWire"},
 		{"archiver/zip.go", "ExtractZip"}, {"archiver/zip.go", "CompressZip"}, {"archiver/archiver.go", "Mkdir"}, {"archiver/archiver.go", "Symlink"}, {"archiver/archiver.go", "CopyFile"},
 		{"archiver/tar.go", "ExtractTar"}, {"archiver/tar.go", "CompressTar"},
